@@ -186,3 +186,8 @@ func (d *Dataset) VerifRaft(i int) *raft.RaftGroup {
 	defer d.partitions[i].raftMu.RUnlock()
 	return d.partitions[i].raft
 }
+
+// VerifPartitionsNodeIds exposes the allocator's placement function.
+func (a *Allocator) VerifPartitionsNodeIds(partitionCount uint, replicationFactor uint) [][]uint64 {
+	return a.getPartitionsNodeIds(partitionCount, replicationFactor)
+}
